@@ -79,7 +79,11 @@ class ConvexLinearApprox(MDOFunction):
             msg = "Function Jacobian unavailable for convex linearization."
             raise AttributeError(msg)
 
-        jac = atleast_2d(self.__mdo_function.jac(x_vect))
+        jac = self.__mdo_function.jac(x_vect)
+        # A function returning a 1D gradient returns a number:
+        # do not rely on its attribute ``dim``, which may be unknown or inconsistent.
+        self.__is_scalar = jac.ndim == 1
+        jac = atleast_2d(jac)
 
         # Build the coefficients matrices
         coeffs = jac[:, self.__approx_indexes]
@@ -132,7 +136,7 @@ class ConvexLinearApprox(MDOFunction):
             + self.__direct_coeffs @ step
             + self.__recipr_coeffs @ inv_step
         )
-        if self.__mdo_function.dim == 1:
+        if self.__is_scalar:
             return value[0]
         return value
 
@@ -151,6 +155,6 @@ class ConvexLinearApprox(MDOFunction):
         value[:, self.__approx_indexes] = self.__direct_coeffs + multiply(
             self.__recipr_coeffs, -(inv_step**2)
         )
-        if self.__mdo_function.dim == 1:
+        if self.__is_scalar:
             value = value[0, :]
         return value
